@@ -89,6 +89,51 @@ func c05(c *Ctx) {
 			r.Undecide("R05.V", "decrypt:validates-what-it-was-given", c.pos(f.Pos()), "no call of the cipher's decrypt loop in ige.Decrypt")
 		}
 	}
+	// what the wrappers hand back is the buffer the block loop filled, whole: a result cut down afterwards (zero
+	// bytes "of padding" stripped, a prefix dropped) is no longer the inverse of the other direction
+	for _, name := range []string{"Encrypt", "Decrypt"} {
+		f := c.fn("R05.V", load.IgePkg, "", name)
+		if f == nil {
+			continue
+		}
+		var outs []ssa.Value
+		for _, cs := range an.Calls(f) {
+			if strings.HasSuffix(cs.Name, "Cipher).doAES256IGEencrypt") || strings.HasSuffix(cs.Name, "Cipher).doAES256IGEdecrypt") {
+				if args := an.CallArgs(cs.Common); len(args) >= 3 {
+					outs = append(outs, args[2])
+				}
+			}
+		}
+		n := 0
+		var bad []string
+		for _, b := range f.Blocks {
+			for _, in := range b.Instrs {
+				ret, ok := an.AsReturn(in)
+				if !ok || len(ret.Results) != 2 {
+					continue
+				}
+				v := an.RetVal(ret, 0)
+				if k, isK := v.(*ssa.Const); isK && k.IsNil() {
+					continue
+				}
+				n++
+				same := false
+				for _, o := range outs {
+					if o == v {
+						same = true
+					}
+				}
+				if !same {
+					bad = append(bad, "the result returned at "+c.pos(ret.Pos())+" is not the buffer handed to the block loop as its output ("+v.String()+")")
+				}
+			}
+		}
+		if n == 0 || len(outs) == 0 {
+			r.Undecide("R05.V", "result-is-the-loop-output:"+name, c.pos(f.Pos()), sprintf("%d value return(s), %d block-loop call(s)", n, len(outs)))
+		} else {
+			r.Check(len(bad) == 0, "R05.V", "result-is-the-loop-output:"+name, c.pos(f.Pos()), strings.Join(bad, "; "))
+		}
+	}
 	{
 		// ... and no scratch space shared through package variables (two goroutines encrypt and decrypt at once)
 		var entries []*ssa.Function
@@ -427,32 +472,7 @@ func c05Buffers(c *Ctx) {
 		n := g.Params[idx].Name()
 		return n == "out" || n == "dst"
 	}
-	var pkgFns []*ssa.Function
-	for f := range c.P.AllFunctions() {
-		if load.FuncPkgPath(f) == load.IgePkg && f.Synthetic == "" && len(f.Blocks) > 0 && f.Parent() == nil {
-			pkgFns = append(pkgFns, f)
-		}
-	}
-	sort.Slice(pkgFns, func(i, j int) bool { return pkgFns[i].String() < pkgFns[j].String() })
-	nparams := 0
-	for _, f := range pkgFns {
-		for k, p := range f.Params {
-			sl, ok := p.Type().Underlying().(*types.Slice)
-			if !ok || !strings.Contains(sl.Elem().String(), "byte") && sl.Elem().String() != "uint8" || isOut(f, k) {
-				continue
-			}
-			nparams++
-			ws := an.ParamWrites(f, k, isOut, 0)
-			var bad []string
-			for _, w := range ws {
-				bad = append(bad, w.What+" at "+c.pos(w.Instr.Pos()))
-			}
-			r.Check(len(bad) == 0, "R05.B", sprintf("param-untouched:%s/%s", an.ShortName(f), p.Name()), c.pos(f.Pos()), "the caller's buffer "+p.Name()+" is written: "+strings.Join(bad, "; "))
-		}
-	}
-	if nparams == 0 {
-		r.Undecide("R05.B", "param-untouched", "", "no []byte parameter found in package aes_ige")
-	}
+	c.paramsUntouched("R05.B", load.IgePkg, isOut)
 	for _, name := range []string{"doAES256IGEencrypt", "doAES256IGEdecrypt"} {
 		f := c.fn("R05.B", load.IgePkg, "*Cipher", name)
 		if f == nil {
@@ -594,5 +614,38 @@ func (c *Ctx) checkTempKeyPad(rule string) {
 			}
 			r.Check(len(bad) == 0, rule, "pad:ige.EncryptMessageWithTempKeys", c.pos(pad.Pos()), "tabulated for len 0..63 (20-byte SHA-1 prefix): "+strings.Join(bad, ", "))
 		}
+	}
+}
+
+// paramsUntouched: one obligation per []byte parameter of every source function of package pkg (other than the
+// ones isOut names as the buffer to fill): nothing writes through it -- no element store, copy, library mutator,
+// append to it (append fills the spare capacity of the caller's array in place), nor a callee that does.
+func (c *Ctx) paramsUntouched(rule, pkg string, isOut func(g *ssa.Function, idx int) bool) {
+	r := c.R
+	var pkgFns []*ssa.Function
+	for f := range c.P.AllFunctions() {
+		if load.FuncPkgPath(f) == pkg && f.Synthetic == "" && len(f.Blocks) > 0 && f.Parent() == nil {
+			pkgFns = append(pkgFns, f)
+		}
+	}
+	sort.Slice(pkgFns, func(i, j int) bool { return pkgFns[i].String() < pkgFns[j].String() })
+	nparams := 0
+	for _, f := range pkgFns {
+		for k, p := range f.Params {
+			sl, ok := p.Type().Underlying().(*types.Slice)
+			if !ok || !strings.Contains(sl.Elem().String(), "byte") && sl.Elem().String() != "uint8" || isOut != nil && isOut(f, k) {
+				continue
+			}
+			nparams++
+			ws := an.ParamWrites(f, k, isOut, 0)
+			var bad []string
+			for _, w := range ws {
+				bad = append(bad, w.What+" at "+c.pos(w.Instr.Pos()))
+			}
+			r.Check(len(bad) == 0, rule, sprintf("param-untouched:%s/%s", an.ShortName(f), p.Name()), c.pos(f.Pos()), "the caller's buffer "+p.Name()+" is written: "+strings.Join(bad, "; "))
+		}
+	}
+	if nparams == 0 {
+		r.Undecide(rule, "param-untouched", "", "no []byte parameter found in package "+pkg)
 	}
 }
